@@ -54,6 +54,29 @@ def pure_a(repo: Repo) -> List[Ob]:
                                "constructing one operation changes what another accepts/does"))
             else:
                 obs.append(ok("PURE-a", fi, key, ("C15",), fi.node, "does not write to the enum member"))
+    # update() runs at every construction on the shared member: resolving operand-type *names* to classes must leave entries that
+    # are already classes alone (a fallback class for "anything else" turns every entry into the fallback the second time round)
+    for en in ENUMS:
+        up = repo.cls(en).methods.get("update")
+        if up is None or "expected_base_state_types" not in src(up.node):
+            continue
+        n += 1
+        problem = None
+        for x in walk_no_nested(up.node):
+            mc = method_call(x)
+            if mc and mc[1] == "get" and len(x.args) == 2 and src(x.args[1]) != src(x.args[0]) and not (isinstance(x.args[1], ast.Constant) and x.args[1].value is None):
+                problem = (x, f"`{src(x)[:60]}` maps every entry that is not a type *name* – including classes resolved by an earlier construction – to {src(x.args[1])}")
+            if isinstance(x, ast.For):
+                for i in [y for y in x.body if isinstance(y, ast.If)]:
+                    tail = i
+                    while tail.orelse and len(tail.orelse) == 1 and isinstance(tail.orelse[0], ast.If):
+                        tail = tail.orelse[0]
+                    for st in tail.orelse:
+                        if isinstance(st, ast.Assign) and "expected_base_state_types" in src(st.targets[0]):
+                            problem = (st, f"the final `else` of the name resolution overwrites entries that are already classes with {src(st.value)[:40]}")
+        (obs.append(bad("PURE-a", up, "operand-type-resolution", ("C15", "C17", "C03"), problem[0],
+                        problem[1] + ": from the second construction of this operation type on, the operand-kind check accepts any subsystem")) if problem else
+         obs.append(ok("PURE-a", up, "operand-type-resolution", ("C15", "C17", "C03"), up.node, "resolving operand-type names leaves already resolved entries unchanged")))
     # Operation.__init__ must validate before it calls anything that mutates shared state
     init = repo.func("Operation.__init__")
     cfg = CFG(init.node)
